@@ -28,6 +28,9 @@ type c18case struct {
 	SeqLen     int    `json:"seqlen"`      // 0: tiny sequences; else every sequence has this length
 	FailAt     int    `json:"fail_at"`     // the device accepts this many bytes, then every write fails (-1: never)
 	CloseFails bool   `json:"close_fails"` // Close of the device returns an error
+	Bytes      []int  `json:"bytes"`       // if set: batch i holds one record sized so that its formatted chunk has exactly bytes[i] bytes (0: empty batch)
+	CutAt      int    `json:"cut_at"`      // > 0: the first write crossing this absolute offset stops there and reports NO error (once)
+	ZeroErr    bool   `json:"zero_err"`    // a zero-length write returns an error
 }
 
 type c18obs struct {
@@ -38,6 +41,10 @@ type c18obs struct {
 	Chunks []string `json:"chunks"` // hex of the formatted batch i (csv: rows only)
 	Header string   `json:"header"`
 	Err    string   `json:"err,omitempty"`
+	// what the device saw (at the end of the run)
+	Zeros     int  `json:"zero_writes"` // zero-length writes received
+	Syncs     int  `json:"syncs"`       // calls of Sync (it would fail)
+	DevFailed bool `json:"dev_failed"`  // some Write or Close of the device returned an error
 }
 
 var errC18Full = errors.New("no space left on device (injected)")
@@ -50,11 +57,33 @@ type c18sink struct {
 	failAt     int
 	closeFails bool
 	done       chan struct{}
+	cutAt      int
+	cutDone    bool
+	zeroErr    bool
+	zeros      int
+	syncs      int
+	failed     bool
 }
+
+var errC18Zero = errors.New("zero-length write refused (injected)")
+var errC18Sync = errors.New("sync failed (injected)")
 
 func (s *c18sink) Write(p []byte) (int, error) {
 	s.mu.Lock()
 	defer s.mu.Unlock()
+	if len(p) == 0 {
+		s.zeros++
+		if s.zeroErr {
+			s.failed = true
+			return 0, errC18Zero
+		}
+		return 0, nil
+	}
+	if s.cutAt > 0 && !s.cutDone && len(s.buf) < s.cutAt && s.cutAt < len(s.buf)+len(p) {
+		// a short write WITHOUT error
+		p = p[:s.cutAt-len(s.buf)]
+		s.cutDone = true
+	}
 	if s.failAt < 0 || len(s.buf)+len(p) <= s.failAt {
 		s.buf = append(s.buf, p...)
 		return len(p), nil
@@ -64,7 +93,17 @@ func (s *c18sink) Write(p []byte) (int, error) {
 		n = 0
 	}
 	s.buf = append(s.buf, p[:n]...)
+	s.failed = true
 	return n, errC18Full
+}
+
+// Sync would fail: nothing on the output path calls it (counted)
+func (s *c18sink) Sync() error {
+	s.mu.Lock()
+	defer s.mu.Unlock()
+	s.syncs++
+	s.failed = true
+	return errC18Sync
 }
 
 func (s *c18sink) Close() error {
@@ -75,6 +114,7 @@ func (s *c18sink) Close() error {
 		close(s.done)
 	}
 	if s.closeFails {
+		s.failed = true
 		return errC18Close
 	}
 	return nil
@@ -104,9 +144,47 @@ var c18poisoned = false
 var c18hangs = 0 // after a few hangs the remaining cases are not run (fail fast)
 
 func c18batch(w string, b, n, order, seqlen int) obiiter.BioSequenceBatch {
+	return c18batchP(w, b, n, order, seqlen, 0)
+}
+
+// c18sized: sequence length and id padding such that the single record of batch b is formatted
+// (under its true number) into exactly target bytes
+func c18sized(w string, b, target int) (seqlen, idpad int, ok bool) {
+	seqlen = 1
+	for it := 0; it < 40; it++ {
+		got := len(c18format(w, c18batchP(w, b, 1, b, seqlen, idpad)))
+		d := target - got
+		if d == 0 {
+			return seqlen, idpad, true
+		}
+		if w == "fastq" {
+			if d >= 2 || d <= -2 {
+				seqlen += d / 2
+			} else if d == 1 {
+				idpad++
+			} else {
+				seqlen--
+				idpad++
+			}
+		} else if d == 1 && it > 3 {
+			idpad++
+		} else {
+			seqlen += d
+		}
+		if seqlen < 1 {
+			return 0, 0, false
+		}
+	}
+	return 0, 0, false
+}
+
+func c18batchP(w string, b, n, order, seqlen, idpad int) obiiter.BioSequenceBatch {
 	sl := make(obiseq.BioSequenceSlice, 0, n)
 	for i := 0; i < n; i++ {
 		id := fmt.Sprintf("b%dr%d", b, i)
+		for k := 0; k < idpad; k++ {
+			id += "x"
+		}
 		var sq []byte
 		if seqlen <= 0 {
 			sq = []byte("acgtacgt")[:1+(b+i)%3]
@@ -158,18 +236,42 @@ func c18run(c c18case) (o c18obs) {
 	}()
 	o.Kind = "ok"
 	n := len(c.Sizes)
+	type shape struct{ n, seqlen, idpad int }
+	var shapes []shape
+	if len(c.Bytes) > 0 {
+		n = len(c.Bytes)
+		for b := 0; b < n; b++ {
+			if c.Bytes[b] == 0 {
+				shapes = append(shapes, shape{0, 0, 0})
+				continue
+			}
+			sl, pad, ok := c18sized(c.Writer, b, c.Bytes[b])
+			if !ok {
+				o.Kind, o.Err = "skip", "chunk size not reachable"
+				return
+			}
+			shapes = append(shapes, shape{1, sl, pad})
+		}
+	} else {
+		for b := 0; b < n; b++ {
+			shapes = append(shapes, shape{c.Sizes[b], c.SeqLen, 0})
+		}
+	}
+	mk := func(b, order int) obiiter.BioSequenceBatch {
+		return c18batchP(c.Writer, b, shapes[b].n, order, shapes[b].seqlen, shapes[b].idpad)
+	}
 	for b := 0; b < n; b++ {
 		order := b
 		if c.Writer == "csv" {
 			order = b + 1 // rows only
 		}
-		o.Chunks = append(o.Chunks, hex.EncodeToString(c18format(c.Writer, c18batch(c.Writer, b, c.Sizes[b], order, c.SeqLen))))
+		o.Chunks = append(o.Chunks, hex.EncodeToString(c18format(c.Writer, mk(b, order))))
 	}
 	if c.Writer == "csv" {
 		o.Header = hex.EncodeToString(c18format("csv", c18batch("csv", 0, 0, 0, 0)))
 	}
 
-	sink := &c18sink{done: make(chan struct{}), failAt: c.FailAt, closeFails: c.CloseFails}
+	sink := &c18sink{done: make(chan struct{}), failAt: c.FailAt, closeFails: c.CloseFails, cutAt: c.CutAt, zeroErr: c.ZeroErr}
 	c18mu.Lock()
 	c18cur, c18fatal, c18snapGot, c18snapCloses = sink, false, nil, 0
 	c18mu.Unlock()
@@ -177,7 +279,7 @@ func c18run(c c18case) (o c18obs) {
 	input := obiiter.MakeIBioSequence()
 	batches := make([]obiiter.BioSequenceBatch, n)
 	for b := 0; b < n; b++ {
-		batches[b] = c18batch(c.Writer, b, c.Sizes[b], b, c.SeqLen)
+		batches[b] = mk(b, b)
 	}
 	go func() {
 		for _, b := range c.Arrival {
@@ -231,6 +333,9 @@ func c18run(c c18case) (o c18obs) {
 			o.Kind, o.Err = "hang", "sink never closed"
 		}
 	}
+	sink.mu.Lock()
+	o.Zeros, o.Syncs, o.DevFailed = sink.zeros, sink.syncs, sink.failed
+	sink.mu.Unlock()
 	c18mu.Lock()
 	defer c18mu.Unlock()
 	if c18fatal {
